@@ -2,8 +2,8 @@
 """meta.json for round 9 (C01, C02, C03, C06, C07, C09, C10, C11, C16, C17)."""
 import json, os, subprocess, sys
 T = {
- "C01-r9m1": ("BoltDBStore.Get decides ErrKeyNotFound by len(val) == 0 instead of val == nil", "a node on BoltDB and a stored empty value (a voters-count or blocked-account marker, an empty contract value): it reads it as absent where LevelDB and memory-backed nodes read it as present", "pkg/core/storage", "TestC01Demo_", "missed", "absent-is-nil existed and caught it under C09; its scope for C01 did not include package storage - added after"),
- "C01-r9m2": ("NEO.updateCache stores the committee prefix as nextValidators without sorting it by key", "a restart: the restarted node derives another validator order (multisignature script, NextConsensus, primary) than the nodes that filled the cache while processing blocks", "pkg/core", "TestC01Demo_", "missed", "validators-sorted added after"),
+ "C01-r9m1": ("BoltDBStore.Get decides ErrKeyNotFound by len(val) == 0 instead of val == nil", "a node on BoltDB and a stored empty value (a voters-count or blocked-account marker, an empty contract value): it reads it as absent where LevelDB and memory-backed nodes read it as present", "pkg/core", "TestC01Demo_EmptyValueBoltFlush", "missed", "absent-is-nil existed and caught it under C09; its scope for C01 did not include package storage - added after"),
+ "C01-r9m2": ("NEO.updateCache stores the committee prefix as nextValidators without sorting it by key", "a restart: the restarted node derives another validator order (multisignature script, NextConsensus, primary) than the nodes that filled the cache while processing blocks", "pkg/core", "TestC01Demo_NextValidatorsAfterRestart", "missed", "validators-sorted added after"),
  "C02-r9m1": ("jumpToStateInternal deletes the genesis block even when no header-hash page is stored (chains below 2000 headers)", "a state jump on a short chain and one more ordinary restart: HeaderHashes.init walks the stored headers down to genesis", "pkg/core", "TestC02Demo_JumpThenRestartShortChain", "DETECTED gc-keeps-startup-page", "rule existed before the seed was looked at"),
  "C02-r9m2": ("resetStateInternal returns 'nothing to do' when the target equals the block height, without looking at the header height", "headers ahead of blocks and a reset to the current block height: the stale headers stay", "pkg/core", "TestC02Demo_ResetToTipDropsStaleHeaders", "missed", "reset-noop-both-heights added after"),
  "C03-r9m1": ("VerifyProof stores the first proof element under the requested root hash instead of its own hash", "a forged proof: any self-made extension->leaf sequence verifies against any root", "pkg/core/mpt", "TestC03Demo_", "missed", "proof-node-by-own-hash added after"),
